@@ -15,7 +15,10 @@ RULE = ("Hypothesis draws a C01-style operator tree (complex payloads and comple
         "payload, or a tree containing a kind whose transpose is not the Dense rule. distinct = distinct case hashes. The "
         "annotated emphasis also draws structured operators with true declarations on leaves and composites (Kronecker, "
         "BlockDiag, Tridiagonal, sums; Hermitian / PD / unitary by construction) under T / H / product / sum / slices whose two "
-        "index arrays hold the same positions in equal or different order.")
+        "index arrays hold the same positions in equal or different order."
+        " Further: congruence products B K1 (K2) B^H with a lazy B, Householder reflectors with complex coefficients,"
+        " a true declaration made on a derived operator (i K for skew-Hermitian K) before K itself is used,"
+        " column-major operands.")
 ASSUMPTIONS = [
     "NumPy backend with harness shim; the generic x @ A of kinds without _rmatmat runs through the shim's linear_transpose",
     "A.T.T / A.H.H are compared by value, not by object identity",
